@@ -1409,19 +1409,23 @@ def _add(p, key, items):
     PROPS[p][key] = list(PROPS[p][key]) + list(items)
 
 _add("C01", "partial", [
-    "number-range clause: `numbersInRange` in c01_accepts_iff is `(Spec.Canon.numOf cfg p).isSome`, and numOf IS the configured conversion "
-    "(Model.Num.convertDefault / convertRoundtrip) - for this clause the theorem says 'the converter does not fail', not 'within finite f64 "
-    "range'. Under float_roundtrip the two coincide (c07_nearest_even + c07_all_sources: rejected exactly when the nearest-even rounding "
-    "is infinite). In the default build they do NOT: the crate (and the model) reject some literals whose value is below f64::MAX by less "
-    "than 2 ulp (17976931348623156225e289, 1.7976931348623158e308 rounds to f64::MAX) and accept some above 2^1024 "
-    "(179769313486231591e291, finding C08-F1); proved band: rejected => exact >= 2^1024-2^970-2^972, exact >= 2^1024+2^972+2^965 => "
-    "rejected (c08p_rejected_only_near_threshold, c08p_overflow_direction_partial). The driver's C01 oracle uses the same numOf, so it "
-    "cannot see this band; C08's exact-rational oracle does (findings C08-F1 and the within-2-ulp rejections are reported there)",
+    "number-range clause, default build only: `numbersInRange` in c01_accepts_iff is `(Spec.Canon.numOf cfg p).isSome`, the model's "
+    "conversion. Under float_roundtrip this is now a theorem about the specification: c01_range_fr (numbersInRange <=> "
+    "Spec.Range.finiteRange: integer literal within [i64::MIN, u64::MAX] or exact decimal value with a finite nearest-even binary64 "
+    "rounding) and c01_accepts_iff_fr (the accepted language with no notion of the model on the right-hand side; inputs shorter than "
+    "2^29-20 bytes). In the DEFAULT build the equivalence is false in both directions and stays so: only the band is proved "
+    "(c01_range_default_band: accepted => exact < 2^1024+2^972+2^965, exact < 2^1024-2^970-2^972 => accepted) with kernel-checked "
+    "witnesses on both sides (c01_default_rejects_finite: 17976931348623156225e289 is below f64::MAX and rejected; "
+    "c01_default_accepts_infinite: 179769313486231591e291 >= 2^1024 is accepted) - open finding C01-default-range-band. The driver "
+    "judges the clause with Spec.Range (roundNE64 of the exact value; c01_range_oracle) independently of Model.Num",
     "fuel: numValue maps the conversion's outOfFuel to NumberOutOfRange; that outcome is excluded by c14_no_fuel / c08p_link, not by this theorem",
 ])
 _add("C02", "partial", [
     "for float literals `canon` is the configured conversion itself (Spec.Canon.numOf = Model.Num.convert*): c02_value_is_canon says nothing "
-    "about float accuracy (C07: nearest-even under float_roundtrip, c07_all_sources; C08: 5 ulp in the default build)",
+    "about float accuracy (C07: nearest-even under float_roundtrip for EVERY literal, c07_typed_nearest_all / c07_nearest_even_all; C08: "
+    "5 ulp in the default build). The driver no longer rests on that: every number of the value the crate returns is matched with its "
+    "literal in the text and judged with Spec.Decimal / Spec.Ieee alone (exact integer; float within 5 ulp, resp. the nearest-even "
+    "double under float_roundtrip) - verdict `C02 <src>: float value of literal ...`",
 ])
 _add("C04", "partial", [
     "c04_value_ap / c04_reparse_ap and every c04_* theorem under arbitrary_precision / raw_value are theorems about the machine model, which "
@@ -1445,22 +1449,12 @@ _add("C06", "partial", [
     "theorem is true by construction; the real do_deserialize_i128 / u128 is Model.Typed.deInt128, covered by c06_via_value (textInt) and "
     "c10_typed_prefix. IntTy has ten widths (isize / usize are not separate: 64-bit target)",
 ])
-_add("C07", "partial", [
-    "c07_limbs_total / c07_bhcomp_limbs_exact assume -2048 < scaled_exponent < 1024; no theorem shows that the call sites of bhcomp inside "
-    "parse_truncated_float / deFloatRoundtrip stay in that range, so c07_correct remains a statement with Bigint = Nat and the limb-level "
-    "closure is not yet composed with it (the range holds on every generated case: op lm and the f64rt families)",
-    "c07_nearest_even / c07_typed_nearest exclude by hypothesis (a) integer literals within u64 / i64 read as f64 / f32 - these are serde's "
-    "`as` casts (assumed correctly rounded; C08-F2-like double rounding cannot occur for f64, and for f32 under float_roundtrip the cast is "
-    "direct) - and (b) exponents beyond i32, covered only by c07_other_literals, which restates the exponent-overflow rule of the model "
-    "without relating it to Overflows64 / underflow",
-])
-_add("C08", "partial", [
-    "c08_f32_once is true by construction: Model.FloatDefault.Parts.toF32 is defined as toF64 then F64.toF32 off the integer path; the f32 "
-    "clause is tied to the crate by the correspondence (op f32lit) and, for typed targets, by c07_typed_f32_link (default build: "
-    "deNumber .f32 = convertDefault then serde's f32 visitor)",
-    "c08_underflow_zero requires exact <= 2^-1076; for exact values in (2^-1076, 2^-1075) - which round to 0 - no theorem says the result is "
-    "+-0 (it may be the least subnormal: within 1 ulp, covered by c08_within_5ulp)",
-])
+# C07: both items of the honesty pass are closed (wip-range): c07_bhcomp_calls_in_range / c07_correct_limbs compose the limb-level
+# closure with c07_correct; c07_int_literals_nearest / c07_typed_nearest_all / c07_nearest_even_all / c07_exponent_overflow_spec
+# leave no excluded class of literals.
+# C08: both items of the honesty pass are closed (wip-range): c08_f32_once_typed states the f32 clause on the typed path
+# (c08_f32_once, true by construction, is kept as a lemma about Model.FloatDefault only); c08_underflow_zero_sharp covers the
+# whole interval below 2^-1075.
 _add("C09", "partial", [
     "c09_slice_reader (and with it the slice/reader half of c09_stream_offsets and c09_untyped_line_col) is close to true by construction: "
     "Model.Machine has ONE reader abstraction and consults env.src only in the UTF-8 check of endStr and in errIdx, where every error is "
@@ -1625,3 +1619,37 @@ PROPS["C09"]["level_text"] += (" String scanners (Props/C09Readers.lean, Props/C
                                "and column; &str = slice on valid UTF-8; parse_str_raw of both = Model.Typed.runRaw.")
 PROPS["C05"]["level_text"] += (" Borrowed clause: c05_borrowed / c05_borrowed_subslice over the separately modelled slice scanner (Model.ReadSlice); "
                                "the real scanners are tied to the machine's decode theorems by c09_slice_str_refines / c09_io_str_refines.")
+# wip-range: the number-range clause on the specification side (Spec.Range, Props/C01Range)
+PROPS["C01"]["lean_targets"] = ["SJ.Props.C01", "SJ.Props.C01Iff", "SJ.Props.C01Range", "SJ.Audit.C01"]
+
+# wip-range: C07 without excluded classes and with the limb-level closure composed; C08 sharpened
+PROPS["C07"]["lean_targets"] = ["SJ.Props.C07", "SJ.Props.C07Total", "SJ.Audit.C07"]
+PROPS["C08"]["lean_targets"] = ["SJ.Props.C08", "SJ.Props.C08Parser", "SJ.Props.C08Sharp", "SJ.Audit.C08"]
+PROPS["C01"]["level_text"] += (
+    " Number range on the specification side (Props/C01Range): c01_range_fr, c01_accepts_iff_fr (float_roundtrip: accept <=> JSON "
+    "text + side conditions with Spec.Range.finiteRange - exact decimal value, nearest-even rounding finite - for inputs shorter than "
+    "2^29-20 bytes), c01_range_default_band with the witnesses c01_default_rejects_finite / c01_default_accepts_infinite (default build: "
+    "only a band of 2 ulp either side of 2^1024-2^970 is undetermined; open finding C01-default-range-band), c01_range_oracle (the "
+    "driver's executable verdict decides finiteRange).")
+PROPS["C01"]["rule"] += (" Tag range-band: literals in and around the band [2^1024-2^970-2^972, 2^1024+2^972+2^965) in 17-25 digit, "
+    "pointed, 0.000-prefixed, e/E/e+ and 309-digit integer spellings (exact 2^1024-2^970, f64::MAX, 2^1024 and neighbours), top level and "
+    "nested in arrays / objects; tag range-tiny: exponents below -308, subnormals, underflow. The accept/reject of the crate on them is "
+    "judged by Spec.Range (exact rational, roundNE64), not by the model.")
+PROPS["C02"]["rule"] += (" Every number of a returned value is matched with its literal in the text and judged with Spec.Decimal / "
+    "Spec.Ieee alone: exact integer, float within 5 ulp (default build) resp. the nearest-even double (float_roundtrip).")
+PROPS["C07"]["level_text"] += (
+    " Closed gaps (Props/C07Total): c07_bhcomp_calls_in_range (every call of bhcomp by parse_concise_float / parse_truncated_float has "
+    "a non-zero mantissa and scaled_exponent in [-1118, 330), inside the range of c07_limbs_total) and c07_correct_limbs (the whole "
+    "conversion with bhcomp.rs on limb vectors through math.rs, Model.LexicalLimbs, never panics and equals the specification); "
+    "c07_nearest_even_all and c07_exponent_overflow_spec (exponent digits beyond i32: NumberOutOfRange iff Overflows64/32 of the exact "
+    "value, otherwise +-0 = the nearest-even value); c07_int_literals_nearest (u64/i64 literals cast by serde's visitor are nearest-even "
+    "for f64 and, rounded once, for f32) and c07_typed_nearest_all (deserialize_f64 / deserialize_f32 under float_roundtrip return the "
+    "nearest-even value of EVERY literal; rejected exactly when it is infinite).")
+PROPS["C08"]["level_text"] += (
+    " Sharpened (Props/C08Sharp): c08_underflow_zero_sharp(_parts) / c08p_underflow_zero_sharp - every exact value below 2^-1075 (the whole "
+    "interval that rounds to zero) gives +-0: monotonicity of nearest-even rounding + kernel evaluation of the largest u64 significand "
+    "below the bound at each of the twenty exponents -324..-343; c08_f32_once_typed - on the typed path (Model.Typed.deNumber) in the "
+    "default build deserialize_f32 returns F64.toF32 of what deserialize_f64 returns on a float-path literal and fails alike "
+    "(c08_f32_once_typed_fails_on_large_int: finding C08-F2 on the typed path).")
+PROPS["C08"]["rule"] += (" Tag tiny-band: for each exponent -324..-343 the largest u64 significand below 2^-1075, its neighbours and "
+    "random significands in the upper half of (2^-1076, 2^-1075), in every spelling.")
